@@ -53,6 +53,22 @@ theorem extracted_markers :
     Gen.NukeAfter = [126, 226, 152, 162, 60] ∧ Gen.NukeBefore = [62, 226, 152, 162, 126] ∧
     Gen.shape_Buffer_Bytes_appliesNukeRe = true := by decide
 
+/-- **The line break that ends a line is consumed whole in both line-end styles** — every run of the lexer
+(as extracted from lexers.go on this run) that skips or collects line breaks takes `\r` together with
+`\n`: a CRLF file produces no new-line token (and so no output line break) that its LF twin does not. -/
+theorem line_break_runs_take_cr :
+    (10 ∈ Gen.lexGohtNewLine_acceptRun0 ∧ 13 ∈ Gen.lexGohtNewLine_acceptRun0) ∧
+    (10 ∈ Gen.lexGohtStart_skipRun2 ∧ 13 ∈ Gen.lexGohtStart_skipRun2) ∧
+    (10 ∈ Gen.lexGohtCommandCode_skipRun1 ∧ 13 ∈ Gen.lexGohtCommandCode_skipRun1) ∧
+    (10 ∈ Gen.lexGohtCommandCode_acceptUntil1 ∧ 13 ∈ Gen.lexGohtCommandCode_acceptUntil1) ∧
+    (10 ∈ Gen.lexGohtCommandCode_acceptUntil2 ∧ 13 ∈ Gen.lexGohtCommandCode_acceptUntil2) ∧
+    (10 ∈ Gen.lexGohtOutputCode_acceptUntil0 ∧ 13 ∈ Gen.lexGohtOutputCode_acceptUntil0) ∧
+    (10 ∈ Gen.lexGohtSilentScript_acceptUntil0 ∧ 13 ∈ Gen.lexGohtSilentScript_acceptUntil0) ∧
+    (10 ∈ Gen.lexVoidTag_acceptUntil0 ∧ 13 ∈ Gen.lexVoidTag_acceptUntil0) ∧
+    (10 ∈ Gen.lexFilterStart_skipRun1 ∧ 13 ∈ Gen.lexFilterStart_skipRun1) ∧
+    (10 ∈ Gen.lexFilterContent_acceptRun0 ∧ 13 ∈ Gen.lexFilterContent_acceptRun0) ∧
+    (10 ∈ Gen.ignoreIndentedLines_skipUntil0 ∧ 13 ∈ Gen.ignoreIndentedLines_skipUntil0) := by decide
+
 /-- **Layout rules, as equations of the model** — an element with nested content starts a new line
 after the opening tag only through its newline child; a void element ends right after `>`. -/
 theorem void_element_layout (fuel : Nat) (c : Ctx) (e : Elem) (kids : List Node) (buf b1 : Buf)
